@@ -134,6 +134,16 @@ def linalg_svd(a, full_matrices=True, compute_uv=True, *args, **kwargs):
         return retv * ret_units
 
 
+def _values_in(units, obj):
+    """Numbers of *obj* expressed in *units*: quantities (also inside tuples and
+    lists) are converted, bare numbers are taken as they are."""
+    if hasattr(obj, "units"):
+        return obj.to_value(units)
+    if isinstance(obj, (tuple, list)):
+        return type(obj)(_values_in(units, _) for _ in obj)
+    return obj
+
+
 def _sanitize_range(_range, units):
     # helper function to histogram* functions
     ndim = len(units)
@@ -160,6 +170,9 @@ def _sanitize_range(_range, units):
 
 def _histogram(a, *, bins=10, range=None, density=None, weights=None, normed=None):
     range = _sanitize_range(range, units=[getattr(a, "units", None)])
+    if hasattr(bins, "units") and hasattr(a, "units"):
+        # bin edges given as a quantity: express them in the data's units
+        bins = bins.to_value(a.units)
     if NUMPY_VERSION >= Version("1.24"):
         counts, bins = np.histogram._implementation(
             np.asarray(a),
